@@ -271,6 +271,7 @@ def run_C11(tier, seed, t0):
         specs.append(('harness.xhair', 'xhair_task', ('C11', 'charlit.py', to, [f, f + '__mustfail'], [f])))
     from .pipe import ALIAS_PROGRAMS
     specs += [('harness.pipe', 'alias_program_task', (k, False)) for k in range(len(ALIAS_PROGRAMS))]
+    specs.append(('harness.pipe', 'regtable_task', ()))      # spelling tables: expressions, character literals inside expressions
     res = pmap(specs)
     return finish('C11', tier, seed, res, t0,
                   bounds=dict(operand_positions='every operand of every mnemonic: constant / register alias vs literal numeral, compression off and on, ' + _wtext(w),
@@ -382,7 +383,7 @@ def run_C16(tier, seed, t0):
     # the same dictionary objects for both calls: only where the second program defines every name it
     # uses (what the caller leaves in a dictionary it passes again is otherwise a legitimate input)
     specs += [('harness.purity', 'sequence_task', (i, 'shared-dicts')) for i, q in enumerate(SEQS)
-              if q[0] in ('ok_then_ok', 'fail_then_ok', 'same_names', 'compress_then_plain', 'compress_both_reordered_labels')]
+              if q[0] in ('ok_then_ok', 'fail_then_ok', 'same_names', 'compress_then_plain', 'compress_both_reordered_labels', 'label_then_const_li')]
     specs += [('harness.purity', 'incdirs_task', (s,)) for s in ('B', 'C')]
     specs += [('harness.purity', 'hashseed_task', (t_,)) for t_ in ('depth2_middle', 'twice_and_last')]
     specs += [('harness.purity', 'hashseed_programs_task', ())]
@@ -404,7 +405,7 @@ def run_C17(tier, seed, t0):
     hist = [('hist:' + h, av) for h in HISTORIES for av in (('default', 'o', 'o_l', 'l_hex') if tier != 'thorough' else ARGVS)]
     if tier != 'thorough':
         keep = {('range', a) for a in ARGVS} | {(pg, 'o_l') for pg in PROGRAMS} | {(pg, 'l_hex') for pg in PROGRAMS} | \
-               {('data', 'o_hex_bad'), ('li_label', 'hex_bad_l'), ('range', 'hex_sym'), ('li_label', 'hex_sym_l'), ('nolabels', 'defs_v'), ('nolabels', 'hex_sym_l'), ('needs_i', 'i_two'), ('needs_i', 'i_two_dup'), ('nested_i', 'i_vendor'), ('own_dir_i', 'i_src'), ('golden_align', 'o_l'), ('golden_align', 'l_hex'), ('needs_i', 'i_dir'), ('needs_i', 'default'), ('ok_only', 'hex_sym'), ('included', 'i_dir'), ('ok_only', 'defs_v'), ('parse', 'i_bad'), ('li_label', 'default')}
+               {('data', 'o_hex_bad'), ('li_label', 'hex_bad_l'), ('range', 'hex_sym'), ('li_label', 'hex_sym_l'), ('nolabels', 'defs_v'), ('nolabels', 'hex_sym_l'), ('needs_i', 'i_two'), ('needs_i', 'i_two_dup'), ('nested_i', 'i_vendor'), ('own_dir_i', 'i_src'), ('golden_align', 'o_l'), ('golden_align', 'l_hex'), ('range', 'hex_dec'), ('ok_only', 'hex_bin'), ('needs_i', 'i_dir'), ('needs_i', 'default'), ('ok_only', 'hex_sym'), ('included', 'i_dir'), ('ok_only', 'defs_v'), ('parse', 'i_bad'), ('li_label', 'default')}
         combos = [c for c in combos if c in keep]
     specs = [('harness.cli', 'cli_task', c) for c in combos + hist]
     res = pmap(specs)
